@@ -31,6 +31,8 @@ class NcpSim:
         self.key_table = {}                   # index -> (eui64, key)
         self.children = {}                    # index -> (eui64, nwk)
         self.stack_up = False
+        self.staged_nwk_fc = None
+        self.staged_aps_fc = None
 
     # ---- helpers ------------------------------------------------------------------------------------
     def st(self, ok=True, *, ember_code=None):
@@ -49,6 +51,14 @@ class NcpSim:
         """RST: volatile state lost, non-volatile kept"""
         self.stack_up = False
         self.log.append(("reboot",))
+        # RAM state: values set with setValue, frame counters staged for a network that does not exist yet and a security
+        # state set but not yet used by formNetwork do not survive a reset (the library re-sends its configuration after
+        # every reset for the same reason); what a formed network stored in the tokens does
+        self.values = {}
+        self.staged_nwk_fc = None
+        self.staged_aps_fc = None
+        if self.network is None:
+            self.security = None
         # the EUI64 is read from the tokens at boot: the rewritable NV3 token if it holds an address, else the factory one
         nv = getattr(self, "nv3_value", None)
         if self.nv3_eui64 and nv is not None and bytes(nv) != b"\xff" * 8:
@@ -100,9 +110,15 @@ class NcpSim:
         raw = bytes(a["value"])
         self.values[vid] = raw
         if vid == int(t.EzspValueId.VALUE_NWK_FRAME_COUNTER):
-            self.nwk_fc = int.from_bytes(raw, "little")
+            if self.network is None:
+                self.staged_nwk_fc = int.from_bytes(raw, "little")     # taken over when the network is formed
+            else:
+                self.nwk_fc = int.from_bytes(raw, "little")
         elif vid == int(t.EzspValueId.VALUE_APS_FRAME_COUNTER):
-            self.aps_fc = int.from_bytes(raw, "little")
+            if self.network is None:
+                self.staged_aps_fc = int.from_bytes(raw, "little")
+            else:
+                self.aps_fc = int.from_bytes(raw, "little")
         return [t.EzspStatus.SUCCESS if not self.v14 else t.sl_Status.OK]
 
     def c_getMfgToken(self, a):
@@ -167,6 +183,10 @@ class NcpSim:
         if self.security is None:
             return [self.st(False)]
         self.network = a["parameters"]
+        if getattr(self, "staged_nwk_fc", None) is not None:
+            self.nwk_fc, self.staged_nwk_fc = self.staged_nwk_fc, None
+        if getattr(self, "staged_aps_fc", None) is not None:
+            self.aps_fc, self.staged_aps_fc = self.staged_aps_fc, None
         self.stack_up = True
         self.emit_status(True)
         return [self.st(True)]
